@@ -5,7 +5,7 @@
 From Coq Require Import List Arith Permutation ZArith.
 From Coq Require Import Sorted.
 From TLV Require Import Base.Shape Base.PyList Base.Tensor Model.Base Model.BaseExt Model.BasePy Model.BasePyCore
-  Proofs.BaseProofs Proofs.BaseProofs2 Proofs.BaseProofs3 Proofs.BaseProofs4 Proofs.BaseProofs5 Proofs.BaseProofs6 Proofs.BaseProofs7 Proofs.BaseProofs8 Proofs.BaseProofs9 Proofs.BaseProofs10 Proofs.BaseProofs11 Proofs.BaseProofs12 Proofs.BaseProofs13 Proofs.BaseProofs14 Proofs.BaseProofs15 Proofs.BaseProofs16 Proofs.BaseProofs17.
+  Proofs.BaseProofs Proofs.BaseProofs2 Proofs.BaseProofs3 Proofs.BaseProofs4 Proofs.BaseProofs5 Proofs.BaseProofs6 Proofs.BaseProofs7 Proofs.BaseProofs8 Proofs.BaseProofs9 Proofs.BaseProofs10 Proofs.BaseProofs11 Proofs.BaseProofs12 Proofs.BaseProofs13 Proofs.BaseProofs14 Proofs.BaseProofs15 Proofs.BaseProofs16 Proofs.BaseProofs17 Proofs.BaseProofs18.
 Import ListNotations.
 
 Theorem C01_fold_unfold : forall (A : Type) (d : A) (t : tensor A) (m : nat),
@@ -451,16 +451,24 @@ Print Assumptions C01_g_is_model.
 (* matricize: the statement-by-statement model (sorted(columns + rows) != list(range(ndim)), prod(shape[i] for i in ...),
    np.transpose's own axis check) is the hand model, for every list of (non-negative) modes, valid or not *)
 Theorem C01_g_matricize_is_model : forall (A : Type) (d : A) (t : tensor A) (rows : list nat) (cols : option (list nat)),
-  g_matricize (plain d) t (map Z.of_nat rows) (option_map (map Z.of_nat) cols) = matricize d t rows cols.
+  g_matricize (plain d) t (PSeq (map Z.of_nat rows)) (option_map (fun c => PSeq (map Z.of_nat c)) cols) = matricize d t rows cols.
 Proof. exact @g_matricize_eq. Qed.
 Print Assumptions C01_g_matricize_is_model.
 
 (* ... and for EVERY list of signed modes: a negative entry can never be part of a successful request of the source (with
    column_modes the sorted() test fails; without, the default columns make np.transpose see a repeated axis) *)
 Theorem C01_g_matricize_signed_is_model : forall (A : Type) (d : A) (t : tensor A) (rows : list Z) (cols : option (list Z)),
-  g_matricize (plain d) t rows cols = matricize_z d t rows cols.
+  g_matricize (plain d) t (PSeq rows) (option_map PSeq cols) = matricize_z d t rows cols.
 Proof. exact @g_matricize_z_eq. Qed.
 Print Assumptions C01_g_matricize_signed_is_model.
+
+(* the bare-int convenience of the source (try: list(x) / except TypeError: [x]) is part of the statement-level model:
+   an int given as row_modes or column_modes stands for the one-element list, on every backend *)
+Theorem C01_g_matricize_bare_int : forall (T : Type) (B : backend T) (t : T) (z : Z) (rows : pyseq) (cols : option pyseq),
+  g_matricize B t (PInt z) cols = g_matricize B t (PSeq [z]) cols /\
+  g_matricize B t rows (Some (PInt z)) = g_matricize B t rows (Some (PSeq [z])).
+Proof. exact @g_matricize_bare_int. Qed.
+Print Assumptions C01_g_matricize_bare_int.
 
 (* ---------- the vectorising functions; the second direction of the partial round trip ---------- *)
 Theorem C01_tensor_to_vec_total : forall (A : Type) (t : tensor A),
@@ -589,14 +597,38 @@ Theorem C01_g_naturality : forall (A B : Type) (f : A -> B) (d : A) (t : tensor 
 Proof. exact @g_natural. Qed.
 Print Assumptions C01_g_naturality.
 
+(* NEGATIVE skip_end / skip_begin (outside the documented domain; what the source does is deterministic and is part of the
+   statement-level model and of the per-run correspondence): a negative skip_end is read as 0 by partial_unfold and
+   partial_tensor_to_vec (`if skip_end:` is taken but range(skip_end, 0, -1) is empty) and is never read by partial_fold,
+   on every backend; so the round trip C01_g_typed_partial_fold_unfold extends to it.  A negative skip_begin is NOT
+   inverted by partial_fold (Example below): such requests are garbage-in. *)
+Theorem C01_g_negative_skip_end : forall (T : Type) (B : backend T) (t : T) (m sb se : Z) (rav : bool) (s : list Z) (se' : Z),
+  ((se < 0)%Z -> g_partial_unfold B t m sb se rav = g_partial_unfold B t m sb 0 rav) /\
+  ((se < 0)%Z -> g_partial_tensor_to_vec B t sb se = g_partial_tensor_to_vec B t sb 0) /\
+  g_partial_fold B t m s sb se = g_partial_fold B t m s sb se'.
+Proof.
+  intros T B t m sb se rav s se'.
+  exact (conj (g_partial_unfold_negative_skip_end B t m sb se rav)
+        (conj (g_partial_tensor_to_vec_negative_skip_end B t sb se) (g_partial_fold_ignores_skip_end B t m s sb se se'))).
+Qed.
+Print Assumptions C01_g_negative_skip_end.
+
+Example C01_negative_skip_begin_is_garbage_in :
+  let t := mk [2;3;4] (seq 0 24) in
+  exists u, g_partial_unfold (plain 0) t 0 (-1) 0 false = Ok u /\ shape u = [4;6] /\
+            g_partial_fold (plain 0) u 0 [2%Z;3%Z;4%Z] (-1) 0 <> Ok t /\
+            g_partial_unfold (plain 0) t 0 0 (-1) false = g_partial_unfold (plain 0) t 0 0 0 false.
+Proof. cbv zeta. eexists. split; [vm_compute; reflexivity|]. split; [reflexivity|]. split; [vm_compute; discriminate | vm_compute; reflexivity]. Qed.
+
 Example C01_nonvacuous_typed :
   let a := mkarr 5 (mk [2;3] (seq 0 6)) in
   wf (arr a) /\
   g_unfold (typed 0 nat) a (-1) = Ok (mkarr 5 (mk [3;2] [0;3;1;4;2;5])) /\
   g_partial_unfold (typed 0 nat) (mkarr 5 (mk [2;3;2;2] (seq 0 24))) 1 1 1 true
     = Ok (mkarr 5 (mk [2;6;2] [0;1;4;5;8;9;2;3;6;7;10;11;12;13;16;17;20;21;14;15;18;19;22;23])) /\
-  g_matricize (typed 0 nat) a [1%Z] None = Ok (mkarr 5 (mk [3;2] [0;3;1;4;2;5])) /\
-  g_matricize (typed 0 nat) a [(-1)%Z] (Some [0%Z]) = Err /\
+  g_matricize (typed 0 nat) a (PSeq [1%Z]) None = Ok (mkarr 5 (mk [3;2] [0;3;1;4;2;5])) /\
+  g_matricize (typed 0 nat) a (PSeq [(-1)%Z]) (Some (PInt 0%Z)) = Err /\
+  g_matricize (typed 0 nat) a (PInt 1%Z) (Some (PInt 0%Z)) = Ok (mkarr 5 (mk [3;2] [0;3;1;4;2;5])) /\
   g_fold (typed 0 nat) (mkarr 5 (mk [3;2] [0;3;1;4;2;5])) (-1) [2%Z;3%Z] = Ok a /\
   g_moveaxis_generic (typed 0 nat) a (-1) 0 = Ok (mkarr 5 (mk [3;2] [0;3;1;4;2;5])) /\
   g_moveaxis_generic (typed 0 nat) a 0 5 = Ok (mkarr 5 (mk [3;2] [0;3;1;4;2;5])) /\
